@@ -103,7 +103,7 @@ PROPS = {
     "C15": {
         "modules": ["CambrianModel.Props.C15"],
         "theorems": ["Cambrian.Props.C15_budget_bound", "Cambrian.Props.C15_no_wait_on_nothing", "Cambrian.Props.C15_nospin",
-                     "Cambrian.Props.C15_prob_ok", "Cambrian.Props.C15_enum_other", "Cambrian.Props.C15_variant_init"],
+                     "Cambrian.Props.C15_prob_ok", "Cambrian.Props.C15_enum_other", "Cambrian.Props.C15_variant_init", "Cambrian.Props.C15_to_json_safe", "Cambrian.Props.C15_run_jsonable"],
         "correspondences": ["proc", "ctl", "ops", "algo", "spec", "codec", "run"],
         "trusted": PROC_TRUST + CTL_TRUST + ["panic-site inventory (tools/expected_sites.json, lint L1): sites not covered by a theorem are trusted with the reasons given in DESIGN.md"],
         "assumptions": ["each evaluation ends by itself, by its time limit or on the abort request", "float laws FL-mean-fin, FL-mul-sign",
@@ -190,7 +190,7 @@ PROPS = {
     },
     "C06": {
         "modules": ["CambrianModel.Props.C06"],
-        "theorems": ["Cambrian.Props.C06_first", "Cambrian.Props.C06_after_abort_keeps_error"],
+        "theorems": ["Cambrian.Props.C06_first", "Cambrian.Props.C06_after_abort_keeps_error", "Cambrian.Props.C06_child_not_ok"],
         "correspondences": ["ctl", "proc"],
         "trusted": CTL_TRUST,
         "assumptions": ["float laws used: none"],
